@@ -1,15 +1,24 @@
-"""buffer_until_timeout / BufferAsyncCalls: C03, C07, C08 (DESIGN 4.C)."""
+"""buffer_until_timeout / BufferAsyncCalls: C03, C07, C08 (DESIGN 4.C).
+
+All daemon-side rules are evaluated on ONE graph: the CFG of the daemon's root
+coroutine with every awaited/called private method and nested helper inlined
+(`inline_methods=True`).  Extracting or inlining helpers, aliasing `self.q` in a
+local, splitting statements or restructuring try/else therefore do not change
+what the rules see; names are compared after value resolution (sa.dataflow).
+"""
 from __future__ import annotations
 
 import ast
+import itertools
 from typing import Dict, List, Optional, Set, Tuple
 
 from ..cfg import CFG, Edge, Node, build, callee_info, find_method
-from ..core import Ctx, construct_key, norm
+from ..core import Ctx, construct_key, norm, norm_locals
+from ..dataflow import alternatives, resolve
 from ..load import AnalysisError, Resolver, Scope, dotted, own_nodes, parent
-from ..paths import find_path, must_pass, no_suspension, reach, render
-from ..sym import call_name
 from ..model import carries_exception
+from ..paths import find_path, must_pass, reach, render
+from ..sym import call_name, enum_paths
 
 FILE = 'aiuti/asyncio.py'
 
@@ -20,10 +29,26 @@ def self_attr(e: ast.AST) -> Optional[str]:
     return None
 
 
-def meth_call(n: Node, attr: str, method: str) -> bool:
-    """node is a call `self.<attr>.<method>(...)`"""
+def _nonexc(e: Edge) -> bool:
+    return e.label != 'exc'
+
+
+def rpath(g: CFG, n: Node, expr: Optional[ast.AST]) -> Optional[str]:
+    """Canonical access path of *expr* at node *n*, local aliases resolved."""
+    if expr is None:
+        return None
+    r = resolve(g, n, expr)
+    return g.res.path(r) or g.res.path(expr)
+
+
+def is_meth(g: CFG, n: Node, recv_path: str, method: str) -> bool:
     return n.kind == 'call' and isinstance(n.ast.func, ast.Attribute) and n.ast.func.attr == method \
-        and self_attr(n.ast.func.value) == attr
+        and rpath(g, n, n.ast.func.value) == recv_path
+
+
+def call_of(g: CFG, n: Node, expr: ast.AST) -> Optional[ast.Call]:
+    r = resolve(g, n, expr)
+    return r if isinstance(r, ast.Call) else None
 
 
 class BufferRoles:
@@ -53,137 +78,145 @@ class BufferRoles:
         cls = self.cls
         self.q = next(a for a, (k, _) in self.kinds.items() if k == 'asyncio.Queue')
         self.flag = next(a for a, (k, _) in self.kinds.items() if k == 'asyncio.Event')
+        self.Q, self.FLAG = f'self.{self.q}', f'self.{self.flag}'
         self.methods = {f.name: f for f in u.functions() if f.enclosing_class() is cls}
-        # daemon root: coroutine handed to DaemonTask(...) / create_task in __init__
-        self.daemon_attr = self.root = None
-        for a, (k, v) in self.kinds.items():
-            for arg in v.args:
-                if isinstance(arg, ast.Call) and self_attr(arg.func) in self.methods:
-                    m = self.methods[self_attr(arg.func)]
-                    if m.is_async:
-                        self.daemon_attr, self.root, self.spawn_kind = a, m, k
+        # daemon root: the coroutine handed to DaemonTask(...) / create_task(...) in __init__
+        gi = build(self.init, p)
+        self.ginit = gi
+        self.root = None
+        for n in gi.nodes:
+            if n.kind != 'call' or not n.ast.args:
+                continue
+            a0 = call_of(gi, n, n.ast.args[0])
+            if a0 is not None and self_attr(a0.func) in self.methods and self.methods[self_attr(a0.func)].is_async:
+                callee = (gi.res.path(n.ast.func) or norm(n.ast.func))
+                if callee.endswith('DaemonTask') or callee.endswith('create_task') or callee.endswith('ensure_future') or callee.endswith('Task'):
+                    self.root = self.methods[self_attr(a0.func)]
         if self.root is None:
             raise AnalysisError('daemon task of the buffer not found in __init__')
-        # RUN: the method awaiting self.func ; PROCESS: the method containing the round loop
-        self.run = self.process = None
-        for f in self.methods.values():
-            g = build(f, p)
-            for n in g.nodes:
-                if n.kind == 'call' and self_attr(n.ast.func) == 'func':
-                    self.run = f
-            for x in own_nodes(f.node):
-                if isinstance(x, ast.While) and any(
-                        isinstance(y, ast.Call) and isinstance(y.func, ast.Attribute) and y.func.attr == 'is_set'
-                        and self_attr(y.func.value) == self.flag for y in ast.walk(x.test)):
-                    self.process = f
-                    self.round_loop = x
-        if self.run is None or self.process is None:
-            raise AnalysisError(f'buffer roles not found: run={self.run} process={self.process}')
-        self.gproc = build(self.process, p)
-        self.grun = build(self.run, p)
-        self.gproc.__dict__['event_flags'] = {f'self.{self.flag}'}
-        self.grun.__dict__['event_flags'] = {f'self.{self.flag}'}
-        # LOAD: nested coroutine of PROCESS with an async for
+        G = build(self.root, p, inline_methods=True)
+        G.__dict__['event_flags'] = {self.FLAG}
+        self.G = G
+        self.blocking_get = [n for n in G.nodes if n.kind == 'await' and isinstance(n.ast.value, ast.Call)
+                             and isinstance(n.ast.value.func, ast.Attribute) and n.ast.value.func.attr == 'get'
+                             and rpath(G, n, n.ast.value.func.value) == self.Q]
+        # timer: attribute assigned a task that wraps queue.get() in wait_for
+        self.timer = None
+        self.arm: List[Node] = []
+        for n in G.nodes:
+            if n.kind == 'store_attr' and self_attr(n.ast) and n.meta.get('value') is not None:
+                v = resolve(G, n, n.meta['value'])
+                if any(isinstance(x, ast.Call) and G.res.path(x.func) == 'asyncio.wait_for' for x in ast.walk(v)):
+                    self.timer = self_attr(n.ast)
+        if self.timer:
+            self.arm = [n for n in G.nodes if n.kind == 'store_attr' and self_attr(n.ast) == self.timer]
+        self.TIMER = f'self.{self.timer}' if self.timer else None
+        self.timed_get = [n for n in G.nodes if n.kind == 'await' and self.TIMER and rpath(G, n, n.ast.value) == self.TIMER]
+        self.done = [n for n in G.nodes if is_meth(G, n, self.Q, 'task_done')]
+        self.clear = [n for n in G.nodes if is_meth(G, n, self.FLAG, 'clear')]
+        self.set_ = [n for n in G.nodes if is_meth(G, n, self.FLAG, 'set')]
+        self.callfunc_calls = [n for n in G.nodes if n.kind == 'call' and self_attr(n.ast.func) == 'func']
+        self.callfunc = [n for n in G.nodes if n.kind == 'await' and isinstance(n.ast.value, ast.Call) and self_attr(n.ast.value.func) == 'func']
+        # round loop: governed by FLAG.is_set()
+        rb = [n for n in G.nodes if n.kind == 'branch' and isinstance(n.meta['test'], ast.Call) and isinstance(n.meta['test'].func, ast.Attribute)
+              and n.meta['test'].func.attr == 'is_set' and rpath(G, n, n.meta['test'].func.value) == self.FLAG]
+        if not rb:
+            raise AnalysisError('round loop (test of the completion flag in the daemon) not found')
+        self.round_branch = rb[0]
+        b = self.round_branch
+        loop = None
+        for x in ast.walk(self.root.unit.tree):
+            if isinstance(x, ast.While) and any(y is b.meta['test'] for y in ast.walk(x.test)):
+                loop = x
+        if loop is None and b.loops:
+            loop = b.loops[-1]
+        if loop is None:
+            raise AnalysisError('round loop statement not found')
+        self.round_loop = loop
+        self.round_head = next(n for n in G.nodes if n.kind == 'loop_head' and n.ast is loop)
+        self.round_exit_label = 'true'     # the edge of `FLAG.is_set()` that leaves the round
+        # LOAD: nested coroutine iterating a producer into a closure set
         self.load = None
-        for c in self.process.children:
-            if c.kind == 'function' and c.is_async and any(isinstance(x, ast.AsyncFor) for x in own_nodes(c.node)):
-                self.load = c
-        if self.load is None:
-            raise AnalysisError('producer loader (nested coroutine with async for) not found')
-        self.gload = build(self.load, p)
-        # ROUNDSET: local of PROCESS assigned set() and mutated by LOAD
-        g = self.gproc
         self.roundset = None
-        for n in g.nodes:
-            if n.kind == 'store_name' and isinstance(n.meta.get('value'), ast.Call) and \
-                    g.res.path(n.meta['value'].func) == 'builtins.set' and not n.meta['value'].args:
-                self.roundset = n.meta['name']
-        # TIMER attr: assigned from a helper that wraps its argument in wait_for(_, self.timeout)
-        self.timer = self.arm_helper = None
-        for n in g.nodes:
-            if n.kind == 'store_attr' and isinstance(n.meta.get('value'), ast.Call):
-                info = callee_info(g, n.meta['value'])
-                if info['kind'] == 'package':
-                    for sc in info['scopes']:
-                        if any(isinstance(x, ast.Call) and Resolver(sc).path(x.func) == 'asyncio.wait_for' for x in own_nodes(sc.node)):
-                            self.timer, self.arm_helper = n.meta['attr'], sc
-                elif call_name(g, n.meta['value']) in ('asyncio.create_task', 'asyncio.ensure_future') or \
-                        (isinstance(n.meta['value'].func, ast.Attribute) and n.meta['value'].func.attr == 'create_task'):
-                    if any(isinstance(x, ast.Call) and g.res.path(x.func) == 'asyncio.wait_for' for x in ast.walk(n.meta['value'])):
-                        self.timer = n.meta['attr']
-        # round loop head
-        test_nodes = set(map(id, ast.walk(self.round_loop.test)))
-        self.round_branch = next(n for n in g.nodes if n.kind == 'branch' and id(n.meta['test']) in test_nodes
-                                 and isinstance(n.meta['test'], ast.Call)
-                                 and isinstance(n.meta['test'].func, ast.Attribute) and n.meta['test'].func.attr == 'is_set')
-        self.round_head = next(n for n in g.nodes if n.kind == 'loop_head' and n.ast is self.round_loop)
-        # events in PROCESS
-        self.blocking_get = [n for n in g.nodes if n.kind == 'await' and isinstance(n.ast.value, ast.Call)
-                             and meth_call_ast(n.ast.value, self.q, 'get')]
-        self.timed_get = [n for n in g.nodes if n.kind == 'await' and self_attr(n.ast.value) == self.timer] if self.timer else []
-        self.done = [n for n in g.nodes if meth_call(n, self.q, 'task_done')]
-        self.clear = [n for n in g.nodes if meth_call(n, self.flag, 'clear')]
-        self.arm = [n for n in g.nodes if n.kind == 'store_attr' and n.meta['attr'] == self.timer] if self.timer else []
-        self.run_calls = [n for n in g.nodes if n.kind == 'await' and isinstance(n.ast.value, ast.Call)
-                          and callee_info(g, n.ast.value)['kind'] == 'package'
-                          and self.run in callee_info(g, n.ast.value).get('scopes', [])]
-        gr = self.grun
-        self.callfunc = [n for n in gr.nodes if n.kind == 'await' and isinstance(n.ast.value, ast.Call)
-                         and self_attr(n.ast.value.func) == 'func']
-        self.set_ = [n for n in gr.nodes if meth_call(n, self.flag, 'set')]
-        # drain generator: method with get_nowait
+        for f in u.functions():
+            if not f.is_async or f.enclosing_function() is None:
+                continue
+            top = f
+            while top.enclosing_function() is not None:
+                top = top.enclosing_function()
+            if top.enclosing_class() is not cls:
+                continue
+            if any(isinstance(x, ast.AsyncFor) for x in own_nodes(f.node)):
+                for y in own_nodes(f.node):
+                    if isinstance(y, ast.Call) and isinstance(y.func, ast.Attribute) and y.func.attr in ('add', 'update') \
+                            and isinstance(y.func.value, ast.Name) and f.binding_scope(y.func.value.id) not in (None, f):
+                        self.load = f
+                        self.roundset = y.func.value.id
+        if self.load is None:
+            raise AnalysisError('producer loader (nested coroutine with async for adding to a closure set) not found')
+        self.gload = build(self.load, p)
+        # drain generator: method with get_nowait on the queue
         self.drain = None
         for f in self.methods.values():
             gg = build(f, p)
-            if any(meth_call(n, self.q, 'get_nowait') for n in gg.nodes):
+            if any(is_meth(gg, n, self.Q, 'get_nowait') for n in gg.nodes):
                 self.drain = f
-        self.put = None
-        ep = self.methods.get('__call__')
-        if ep is not None:
-            gg = build(ep, p)
-            for n in gg.nodes:
-                if n.kind == 'call' and isinstance(n.ast.func, ast.Attribute) and self_attr(n.ast.func) in self.methods:
-                    self.put = self.methods[self_attr(n.ast.func)]
-        if self.put is None:
-            for f in self.methods.values():
-                gg = build(f, p)
-                if any(n.kind == 'call' and isinstance(n.ast.func, ast.Attribute) and n.ast.func.attr == 'call_soon_threadsafe'
-                       for n in gg.nodes):
-                    self.put = f
+        self.drain_calls = [n for n in G.nodes if n.kind == 'call' and self.drain is not None and self_attr(n.ast.func) == self.drain.name]
         self.wait = self.methods.get('wait')
         self.wait_anywhere = self.methods.get('wait_from_anywhere')
         self.entry_points = [self.methods[m] for m in ('__call__', 'await_', 'map', 'amap') if m in self.methods]
+        self.gathers = [n for n in G.nodes if n.kind == 'await' and isinstance(n.ast.value, ast.Call) and call_name(G, n.ast.value) == 'asyncio.gather']
+
+    def is_armed_get(self, n: Node) -> bool:
+        """Is this awaited queue.get() the coroutine handed to wait_for for the timer (not a dequeue of its own)?"""
+        x = n.ast
+        for _ in range(3):
+            x = parent(x) if x is not None else None
+            if isinstance(x, ast.Call) and call_name(self.G, x) == 'asyncio.wait_for':
+                return True
+        return False
+
+    def role_of(self, scope_qualname: str) -> str:
+        q = scope_qualname
+        if self.load is not None and q == self.load.qualname:
+            return 'LOADER'
+        for n in self.callfunc_calls:
+            if n.meta.get('inlined_from') == q or (not n.meta.get('inlined') and q == self.root.qualname):
+                return 'RUNNER'
+        b = self.round_branch
+        if b.meta.get('inlined_from') == q or (not b.meta.get('inlined') and q == self.root.qualname):
+            return 'PROCESS'
+        if q == self.root.qualname:
+            return 'ROOT'
+        return q
 
     def publish(self, ctx: Ctx) -> None:
         ctx.extra['roles'] = {'class': self.cls.qualname, 'Q': self.q, 'FLAG': self.flag, 'TIMER': self.timer,
-                              'DAEMON root': self.root.qualname, 'PROCESS': self.process.qualname, 'LOAD': self.load.qualname,
-                              'RUN': self.run.qualname, 'ROUNDSET': self.roundset,
+                              'DAEMON root': self.root.qualname, 'LOAD': self.load.qualname, 'ROUNDSET': self.roundset,
                               'DRAIN': self.drain.qualname if self.drain else None,
-                              'PUT': self.put.qualname if self.put else None}
-
-    def daemon_scopes(self) -> List[Scope]:
-        """Coroutines reached from the daemon root by awaited (inline) call edges."""
-        out, stack = [], [self.root]
-        while stack:
-            f = stack.pop()
-            if f in out:
-                continue
-            out.append(f)
-            g = build(f, self.p)
-            for n in g.nodes:
-                if n.kind == 'await' and isinstance(n.ast.value, ast.Call):
-                    info = callee_info(g, n.ast.value)
-                    if info['kind'] == 'package':
-                        stack.extend(s for s in info['scopes'] if s.kind == 'function')
-        return out
+                              'daemon graph': self.G.stats(),
+                              'inlined': sorted({n.meta['name'] for n in self.G.nodes if n.kind == 'inline_enter'})}
 
 
-def meth_call_ast(c: ast.Call, attr: str, method: str) -> bool:
-    return isinstance(c.func, ast.Attribute) and c.func.attr == method and self_attr(c.func.value) == attr
+def _is_load_call(r: BufferRoles, e: ast.AST) -> bool:
+    return isinstance(e, ast.Call) and isinstance(e.func, ast.Name) and e.func.id == r.load.name
 
 
-def _nonexc(e: Edge) -> bool:
-    return e.label != 'exc'
+def _entry_graph(r: BufferRoles, f: Scope) -> CFG:
+    return build(f, r.p, inline_methods=True)
+
+
+def _empty_guards(r: BufferRoles) -> List[Node]:
+    """Branches testing the truthiness of the round set: their false edge (nothing to deliver)
+    is an accepted way around the call."""
+    G = r.G
+    out = []
+    for n in G.nodes:
+        if n.kind == 'branch':
+            t = resolve(G, n, n.meta['test'], keep=(r.roundset,))
+            if isinstance(t, ast.Name) and t.id == r.roundset:
+                out.append(n)
+    return out
 
 
 # ---------------------------------------------------------------------------
@@ -192,8 +225,7 @@ def _nonexc(e: Edge) -> bool:
 
 def c03(ctx: Ctx) -> None:
     r = BufferRoles(ctx)
-    p = r.p
-    g, gr, gl = r.gproc, r.grun, r.gload
+    p, G, gl = r.p, r.G, r.gload
     ctx.trusted += ['asyncio.Queue / wait_for / gather', 'loop.call_soon_threadsafe is FIFO and thread-safe']
     ctx.rule('C03-S1', 'the completion flag is set only after a normal completion of the wrapped call (or when the round set is empty)', 1)
     ctx.rule('C03-S2', 'within a round the input set is bound once and only grows', 1)
@@ -205,207 +237,218 @@ def c03(ctx: Ctx) -> None:
     ctx.rule('C03-S8', 'code that may run on a foreign thread touches the asyncio.Queue only via loop.call_soon_threadsafe', 2)
     ctx.rule('C03-S9', 'the loop-owned completion flag is never mutated directly by any-thread entry points', 1)
     ctx.rule('C03-S10', 'no suspension point between setting the flag and the round-loop test; the activation ends after the loop', 2)
-    where_run = f'{FILE}:{r.run.lineno}'
+    where = f'{FILE}:{r.root.lineno}'
+    RS = r.roundset
+    guards = _empty_guards(r)
     # S1
     if not r.callfunc:
-        ctx.violation('C03-S1', 'the wrapped function is not awaited inline by the runner', where_run,
+        ctx.violation('C03-S1', 'the wrapped function is not awaited inline by the daemon', where,
                       'the flag is set without knowing whether the call succeeded',
-                      construct=construct_key(r.run.qualname, 'call not awaited'))
-    all_sets = []
+                      construct=construct_key('BUFFER.daemon', 'call not awaited'))
+    set_asts = {id(s.ast) for s in r.set_}
     for f in r.methods.values():
+        if f is r.init:
+            continue
         gg = build(f, p)
         for n in gg.nodes:
-            if meth_call(n, r.flag, 'set') and f is not r.init:
-                all_sets.append((gg, n))
-    for gg, n in all_sets:
-        if gg.scope is not r.run:
-            ctx.violation('C03-S1', f'{norm(n.ast)} in {gg.scope.qualname}', gg.loc(n),
-                          'the completion flag is set outside the function runner',
-                          construct=construct_key(gg.scope.qualname, n.ast))
+            if is_meth(gg, n, r.FLAG, 'set') and id(n.ast) not in set_asts:
+                ctx.violation('C03-S1', f'{norm(n.ast)} in {f.name}', gg.loc(n), 'the completion flag is set outside the daemon',
+                              construct=construct_key(f.qualname, n.ast))
+    fail_edges = [e for c in r.callfunc for e in G.succ[c.id] if e.label == 'exc']
+    for c in r.callfunc:
+        for n2 in G.nodes:
+            if n2.kind == 'call' and n2.ast is c.ast.value:
+                fail_edges += [e for e in G.succ[n2.id] if e.label == 'exc']
+    ok_edges = {id(e) for c in r.callfunc for e in G.succ[c.id] if e.label != 'exc'} | \
+               {id(e) for b in guards for e in G.succ[b.id] if e.label == 'false'}
     for s in r.set_:
-        ee = [e for c in r.callfunc for e in gr.succ[c.id] if e.label == 'exc']
-        # also the call node creating the coroutine
-        for c in r.callfunc:
-            for n2 in gr.nodes:
-                if n2.kind == 'call' and n2.ast is c.ast.value:
-                    ee += [e for e in gr.succ[n2.id] if e.label == 'exc']
-        # the set is reachable - from entry and from any failure edge - only via a (new) normal
-        # completion of CALLFUNC or the empty-set edge
-        empty_edges = [e for n in gr.nodes if n.kind == 'branch' and isinstance(n.meta['test'], ast.Name)
-                       and n.meta['test'].id in r.run.params for e in gr.succ[n.id] if e.label == 'false']
-        ok_edges = {id(e) for c in r.callfunc for e in gr.succ[c.id] if e.label != 'exc'} | {id(e) for e in empty_edges}
-        w = find_path(gr, [], [s], start_edges=ee, edge_ok=lambda e: id(e) not in ok_edges)
-        w2 = find_path(gr, [gr.entry], [s], edge_ok=lambda e: id(e) not in ok_edges)
-        ctx.check('C03-S1', f'{norm(s.ast)}', gr.loc(s), w is None and w2 is None,
+        allow = lambda e: id(e) not in ok_edges
+        w = find_path(G, [], [s], start_edges=fail_edges, edge_ok=allow)
+        round_starts = [e for e in G.succ[r.round_branch.id] if e.label != r.round_exit_label]
+        w2 = find_path(G, [], [s], start_edges=round_starts, edge_ok=allow)
+        ctx.check('C03-S1', f'{norm(s.ast)}', G.loc(s), w is None and w2 is None,
                   'set only after the call returned normally (or nothing to deliver)',
-                  'the flag can be set after a failed call: the round ends and its arguments are dropped',
-                  witness=render(gr, w or w2), construct=construct_key(r.run.qualname, 'set after failure'))
+                  'the flag can be set after a failed call (or without calling): the round ends and its arguments are dropped',
+                  witness=render(G, w or w2), construct=construct_key('BUFFER.daemon', 'set after failure'))
     if not r.set_:
-        ctx.violation('C03-S1', 'the completion flag is never set', where_run, 'wait() never returns',
-                      construct=construct_key(r.run.qualname, 'no set'))
+        ctx.violation('C03-S1', 'the completion flag is never set', where, 'wait() never returns',
+                      construct=construct_key('BUFFER.daemon', 'no set'))
     # S2
-    if r.roundset is None:
-        ctx.violation('C03-S2', 'no per-round input set', f'{FILE}:{r.process.lineno}',
-                      construct=construct_key(r.process.qualname, 'no round set'))
-        r.publish(ctx)
-        return
-    RS = r.roundset
-    binds = [n for n in g.nodes if n.kind == 'store_name' and n.meta['name'] == RS]
+    binds = [n for n in G.nodes if n.kind == 'store_name' and n.meta['name'] == RS and not n.meta.get('inlined_param')]
     muts = []
-    for sc in [r.process] + list(r.process.children):
-        gg = build(sc, p) if sc.kind == 'function' else None
-        if gg is None:
-            continue
+    for gg in [G, gl]:
         for n in gg.nodes:
-            if n.kind == 'call' and isinstance(n.ast.func, ast.Attribute) and isinstance(n.ast.func.value, ast.Name) \
-                    and n.ast.func.value.id == RS and sc.binding_scope(RS) is r.process:
-                muts.append((gg, n, n.ast.func.attr))
-            if n.kind == 'store_name' and n.meta['name'] == RS and sc is not r.process and sc.binding_scope(RS) is r.process:
-                muts.append((gg, n, 'rebind'))
+            if n.kind == 'call' and isinstance(n.ast.func, ast.Attribute):
+                recv = resolve(gg, n, n.ast.func.value, keep=(RS,))
+                if isinstance(recv, ast.Name) and recv.id == RS:
+                    muts.append((gg, n, n.ast.func.attr))
             if n.kind == 'store_name' and n.meta['name'] == RS and isinstance(n.meta.get('stmt'), ast.AugAssign):
                 muts.append((gg, n, 'augassign'))
-    bad = [(gg, n, m) for gg, n, m in muts if m not in ('add', 'update', 'copy', '__len__', '__contains__')]
-    in_loop = [b for b in binds if b.loops]
+    bad = [(gg, n, m) for gg, n, m in muts if m not in ('add', 'update', 'copy', 'union', '__len__', '__contains__')]
+    in_round = [b for b in binds if r.round_loop in b.loops]
     ctx.check('C03-S2', f'{RS}: {len(binds)} binding(s), mutators {sorted({m for _, _, m in muts})}',
-              g.loc(binds[0]) if binds else f'{FILE}:{r.process.lineno}',
-              len(binds) == 1 and not bad and not in_loop, 'bound once per activation, only add()',
+              G.loc(binds[0]) if binds else where, len(binds) == 1 and not bad and not in_round,
+              'bound once per activation (outside the round loop), only add()',
               'the round set is re-bound or shrunk before a successful call: arguments of a failed call are lost',
-              witness=[f'{gg.loc(n)} {norm(n.ast)}' for gg, n, _ in bad] + [f'{g.loc(b)} rebinding inside the loop' for b in in_loop],
-              construct=construct_key(r.process.qualname, 'round set shrinks', sorted({m for _, _, m in bad}), len(binds), bool(in_loop)))
-    # RUN's parameter set must not be mutated either
-    rp = r.run.params[1] if len(r.run.params) > 1 else None
-    for n in gr.nodes:
-        if n.kind == 'call' and isinstance(n.ast.func, ast.Attribute) and isinstance(n.ast.func.value, ast.Name) \
-                and n.ast.func.value.id == rp and n.ast.func.attr in ('clear', 'discard', 'pop', 'remove', 'difference_update'):
-            ctx.violation('C03-S2', f'{norm(n.ast)} in the runner', gr.loc(n), 'the runner shrinks the round set',
-                          construct=construct_key(r.run.qualname, n.ast))
+              witness=[f'{gg.loc(n)} {norm(n.ast)}' for gg, n, _ in bad] + [f'{G.loc(b)} rebinding inside the round loop' for b in in_round],
+              construct=construct_key('BUFFER.daemon', 'round set shrinks', sorted({m for _, _, m in bad}), len(binds), bool(in_round)))
     # S3
     for c in r.callfunc:
-        ee = [e for e in gr.succ[c.id] if e.label == 'exc' and e.classes and ({'Exception', 'BaseException'} & set(e.classes))]
-        reached = reach(gr, [], start_edges=ee)
-        esc = [e for n in gr.nodes if n.id in reached or n is c for e in gr.succ[n.id]
-               if e.dst is gr.raise_exit and carries_exception(e.classes)]
-        esc_direct = [e for e in ee if e.dst is gr.raise_exit]
-        ctx.check('C03-S3', f'Exception edge of {norm(c.ast)} is contained in the runner', gr.loc(c),
-                  not esc and not esc_direct and bool(ee), 'caught, logged, no flag set',
-                  'an exception of the wrapped function escapes the runner: it kills the round (and the daemon) with its arguments',
-                  construct=construct_key(r.run.qualname, 'exception escapes'))
-    for rc in r.run_calls:
-        ne = [e for e in g.succ[rc.id] if e.label != 'exc']
-        w = must_pass(g, [], [g.exit, g.raise_exit], [r.round_head], start_edges=ne, edge_ok=_nonexc)
-        ctx.check('C03-S3', f'after {norm(rc.ast)} control returns to the round loop', g.loc(rc), w is None,
-                  'a failed call is followed by another collection cycle with the same set',
-                  'after running the function the round ends regardless of the outcome', witness=render(g, w),
-                  construct=construct_key(r.process.qualname, 'no retry'))
+        ee = [e for e in G.succ[c.id] if e.label == 'exc' and carries_exception(e.classes)]
+        w_esc = must_pass(G, [], [G.raise_exit, G.exit] + binds, [r.round_branch], start_edges=ee,
+                          edge_ok=lambda e: e.label != 'exc' or carries_exception(e.classes))
+        ws = find_path(G, [], r.set_, start_edges=ee, edge_ok=lambda e: id(e) not in ok_edges)
+        ctx.check('C03-S3', f'Exception edge of {norm(c.ast)} is contained and leads back to the round-loop test', G.loc(c),
+                  bool(ee) and w_esc is None and ws is None, 'caught, logged, no flag set, another collection cycle with the same set',
+                  'an exception of the wrapped function escapes the daemon (or ends the round): its arguments are lost',
+                  witness=render(G, w_esc or ws), construct=construct_key('BUFFER.daemon', 'exception escapes'))
+        ne = [e for e in G.succ[c.id] if e.label != 'exc']
+        w2 = must_pass(G, [], [G.exit, G.raise_exit] + binds, [r.round_branch], start_edges=ne, edge_ok=_nonexc)
+        ctx.check('C03-S3', f'after {norm(c.ast)} control returns to the round-loop test', G.loc(c), w2 is None,
+                  'the flag decides whether another cycle is needed', 'after running the function the round ends regardless of the outcome',
+                  witness=render(G, w2), construct=construct_key('BUFFER.daemon', 'no retry'))
     # S4: every GET flows into a loader coroutine that is awaited
-    def is_load_call(e: ast.AST) -> bool:
-        return isinstance(e, ast.Call) and isinstance(e.func, ast.Name) and e.func.id == r.load.name
-    lists = [n for n in g.nodes if n.kind == 'store_name' and isinstance(n.meta.get('value'), ast.List)
-             and any(is_load_call(x) for x in n.meta['value'].elts)]
+    tree = r.root.unit.tree
+    lists = [n for n in G.nodes if n.kind == 'store_name' and isinstance(n.meta.get('value'), ast.List) and n.meta['value'].elts
+             and all(_is_load_call(r, x) for x in n.meta['value'].elts)]
     L = lists[0].meta['name'] if lists else None
+
+    def flows_to_loader(var: str, awaited: bool) -> bool:
+        for x in ast.walk(tree):
+            if _is_load_call(r, x) and x.args and isinstance(x.args[0], ast.Name) and x.args[0].id == var:
+                if not awaited or isinstance(parent(x), ast.Await):
+                    return True
+        return False
     for bg in r.blocking_get:
+        if r.is_armed_get(bg):
+            continue
         par = parent(bg.ast)
-        if isinstance(parent(par), ast.Call) and call_name(g, parent(par)) == 'asyncio.wait_for':
-            continue  # this is the timed read being armed, consumed at `await TIMER`
-        ok = is_load_call(par) and (isinstance(parent(par), ast.List) or isinstance(parent(par), ast.Await))
-        ctx.check('C03-S4', f'blocking get -> {norm(par)[:60]}', g.loc(bg), ok, 'dequeued producer wrapped by the loader',
-                  'a dequeued producer is not handed to the loader', construct=construct_key(r.process.qualname, 'get not loaded', par))
+        ok = _is_load_call(r, par)
+        if not ok and isinstance(par, (ast.Assign, ast.AnnAssign)):
+            tgt = par.targets[0] if isinstance(par, ast.Assign) else par.target
+            ok = isinstance(tgt, ast.Name) and flows_to_loader(tgt.id, False)
+        ctx.check('C03-S4', f'blocking get -> {norm(par)[:60]}', G.loc(bg), ok, 'dequeued producer wrapped by the loader',
+                  'a dequeued producer is not handed to the loader', construct=construct_key('BUFFER.daemon', 'get not loaded'))
     for tg in r.timed_get:
         par = parent(tg.ast)
-        ok = is_load_call(par) and isinstance(parent(par), ast.Await)
-        ctx.check('C03-S4', f'timed get -> {norm(parent(par))[:70]}', g.loc(tg), ok, 'awaited inline through the loader',
-                  'the producer delivered by the timed read is not loaded', construct=construct_key(r.process.qualname, 'timed get not loaded', par))
-    if r.drain is not None:
-        drains = [n for n in g.nodes if n.kind == 'call' and callee_info(g, n.ast)['kind'] == 'package'
-                  and r.drain in callee_info(g, n.ast).get('scopes', [])]
-        for d in drains:
-            par = parent(d.ast)
-            ok = isinstance(par, ast.Call) and g.res.path(par.func) == 'builtins.map' and isinstance(par.args[0], ast.Name) \
-                and par.args[0].id == r.load.name and isinstance(parent(par), ast.Call) and isinstance(parent(par).func, ast.Attribute) \
-                and parent(par).func.attr == 'extend' and isinstance(parent(par).func.value, ast.Name) and parent(par).func.value.id == L
-            ctx.check('C03-S4', f'drained producers -> {norm(parent(par))[:70] if par is not None else None}', g.loc(d), ok,
-                      'every drained producer becomes a loader coroutine in the gather list',
-                      'drained producers are not all loaded', construct=construct_key(r.process.qualname, 'drain not loaded'))
+        ok = _is_load_call(r, par) and isinstance(parent(par), ast.Await)
+        if not ok and isinstance(par, (ast.Assign, ast.AnnAssign)):
+            tgt = par.targets[0] if isinstance(par, ast.Assign) else par.target
+            ok = isinstance(tgt, ast.Name) and flows_to_loader(tgt.id, True)
+        ctx.check('C03-S4', f'timed get -> {norm(parent(par) if par is not None and parent(par) is not None else tg.ast)[:70]}', G.loc(tg), ok,
+                  'awaited inline through the loader', 'the producer delivered by the timed read is not loaded',
+                  construct=construct_key('BUFFER.daemon', 'timed get not loaded'))
+    for d in r.drain_calls:
+        par = parent(d.ast)
+        ok = isinstance(par, ast.Call) and G.res.path(par.func) == 'builtins.map' and isinstance(par.args[0], ast.Name) \
+            and par.args[0].id == r.load.name and isinstance(parent(par), ast.Call) and isinstance(parent(par).func, ast.Attribute) \
+            and parent(par).func.attr == 'extend' and isinstance(parent(par).func.value, ast.Name) and parent(par).func.value.id == L
+        ctx.check('C03-S4', f'drained producers -> {norm(parent(par))[:70] if par is not None and parent(par) is not None else None}', G.loc(d), ok,
+                  'every drained producer becomes a loader coroutine in the gather list',
+                  'drained producers are not all loaded', construct=construct_key('BUFFER.daemon', 'drain not loaded'))
     if L is not None:
-        growth = lists + [n for n in g.nodes if n.kind == 'call' and isinstance(n.ast.func, ast.Attribute) and n.ast.func.attr in ('extend', 'append')
+        growth = lists + [n for n in G.nodes if n.kind == 'call' and isinstance(n.ast.func, ast.Attribute) and n.ast.func.attr in ('extend', 'append')
                           and isinstance(n.ast.func.value, ast.Name) and n.ast.func.value.id == L]
-        consume = [n for n in g.nodes if n.kind == 'await' and isinstance(n.ast.value, ast.Call)
-                   and call_name(g, n.ast.value) == 'asyncio.gather' and any(
-            isinstance(a, ast.Starred) and isinstance(a.value, ast.Name) and a.value.id == L for a in n.ast.value.args)]
-        drops = [n for n in g.nodes if n.kind == 'call' and isinstance(n.ast.func, ast.Attribute) and n.ast.func.attr == 'clear'
+        consume = [n for n in r.gathers if any(isinstance(a, ast.Starred) and isinstance(a.value, ast.Name) and a.value.id == L
+                                               for a in n.ast.value.args)]
+        drops = [n for n in G.nodes if n.kind == 'call' and isinstance(n.ast.func, ast.Attribute) and n.ast.func.attr == 'clear'
                  and isinstance(n.ast.func.value, ast.Name) and n.ast.func.value.id == L]
+
         def empty_false(e: Edge) -> bool:
             return e.src.kind == 'branch' and isinstance(e.src.meta['test'], ast.Name) and e.src.meta['test'].id == L and e.label == 'false'
         for gn in growth:
-            starts = [e for e in g.succ[gn.id] if e.label != 'exc']
-            w = must_pass(g, [], drops + [g.exit, r.round_head] + r.timed_get, consume, start_edges=starts,
-                          edge_ok=lambda e: _nonexc(e) and not empty_false(e))
-            # reaching round_head again without gather is fine only if nothing was dropped; require gather before the timed read
-            w = must_pass(g, [], drops + [g.exit] + r.timed_get, consume, start_edges=starts,
+            starts = [e for e in G.succ[gn.id] if e.label != 'exc']
+            w = must_pass(G, [], drops + [G.exit] + r.timed_get, consume, start_edges=starts,
                           edge_ok=lambda e: _nonexc(e) and not empty_false(e))
             ctx.check('C03-S4', f'loaders added by {norm(gn.ast)[:50]} are gathered before the list is cleared / the timer is awaited',
-                      g.loc(gn), w is None and bool(consume), 'await gather(*list) on every non-exceptional path',
-                      'loader coroutines can be dropped un-awaited (their producers are lost)', witness=render(g, w),
-                      construct=construct_key(r.process.qualname, 'loaders not gathered'))
+                      G.loc(gn), w is None and bool(consume), 'await gather(*list) on every non-exceptional path',
+                      'loader coroutines can be dropped un-awaited (their producers are lost)', witness=render(G, w),
+                      construct=construct_key('BUFFER.daemon', 'loaders not gathered'))
     else:
-        ctx.violation('C03-S4', 'no loader list', f'{FILE}:{r.process.lineno}', 'dequeued producers are not collected',
-                      construct=construct_key(r.process.qualname, 'no loader list'))
-    # S5
+        ctx.violation('C03-S4', 'no loader list', where, 'dequeued producers are not collected',
+                      construct=construct_key('BUFFER.daemon', 'no loader list'))
+    # S5 / S6 on the loader's own graph
     fors = [n for n in gl.nodes if n.kind == 'for_iter' and n.meta.get('is_async')]
     adds = [n for n in gl.nodes if n.kind == 'call' and isinstance(n.ast.func, ast.Attribute) and n.ast.func.attr == 'add'
             and isinstance(n.ast.func.value, ast.Name) and n.ast.func.value.id == RS]
     for fo in fors:
         ee = [e for e in gl.succ[fo.id] if e.label == 'exc']
-        # a producer may also fail with CancelledError (a cancelled task/future handed to await_());
-        # what may remain un-caught is only the rest of BaseException (KeyboardInterrupt, SystemExit, GeneratorExit)
-        esc = [e for e in ee if e.dst is gl.raise_exit and (carries_exception(e.classes)
-                                                             or {'CancelledError', 'BaseException'} & set(e.classes or ()))]
+        esc = [e for e in ee if e.dst is gl.raise_exit and (carries_exception(e.classes) or {'CancelledError', 'BaseException'} & set(e.classes or ()))]
         reached = reach(gl, [], start_edges=ee)
         reraises = [n for n in gl.nodes if n.kind == 'raise' and n.id in reached]
         ctx.check('C03-S5', f'failure of {norm(fo.ast.iter)} is contained', gl.loc(fo), not esc and not reraises and bool(ee),
                   'handler covers Exception and CancelledError and does not re-raise',
                   'one failing producer (Exception, or CancelledError of a cancelled awaitable) aborts the gather: other producers\' arguments and its own prefix are lost',
-                  construct=construct_key(r.load.qualname, 'producer failure escapes'))
+                  construct=construct_key('BUFFER.loader', 'producer failure escapes'))
         inbody = [a for a in adds if fo.ast in a.loops]
         ctx.check('C03-S5', f'{RS}.add(...) inside the producer loop', gl.loc(fo), bool(inbody) and len(inbody) == len(adds),
                   'each element is recorded as it arrives (prefix survives a later failure)',
                   'elements are recorded only after the producer finished: a failing producer loses its prefix',
-                  construct=construct_key(r.load.qualname, 'add outside loop'))
-        # S6
+                  construct=construct_key('BUFFER.loader', 'add outside loop'))
         tv = fo.ast.target.id if isinstance(fo.ast.target, ast.Name) else None
         for a in inbody:
-            ok = a.ast.args and isinstance(a.ast.args[0], ast.Name) and a.ast.args[0].id == tv
+            arg = resolve(gl, a, a.ast.args[0]) if a.ast.args else None
+            ok = isinstance(arg, ast.Name) and arg.id == tv
             ctx.check('C03-S6', f'{norm(a.ast)}', gl.loc(a), bool(ok), 'adds the element produced', 'adds something other than the produced element',
-                      construct=construct_key(r.load.qualname, a.ast))
+                      construct=construct_key('BUFFER.loader', norm_locals(a.ast, r.load)))
     for c in r.callfunc:
-        a0 = c.ast.value.args[0] if c.ast.value.args else None
-        ok = isinstance(a0, ast.Name) and a0.id == rp
-        passed = all(rc.ast.value.args and isinstance(rc.ast.value.args[0], ast.Name) and rc.ast.value.args[0].id == RS for rc in r.run_calls)
-        ctx.check('C03-S6', f'{norm(c.ast)} with the round set', gr.loc(c), ok and passed and bool(r.run_calls),
+        a0 = resolve(G, c, c.ast.value.args[0], keep=(RS,)) if c.ast.value.args else None
+        ok = isinstance(a0, ast.Name) and a0.id == RS
+        ctx.check('C03-S6', f'{norm(c.ast)} with the round set ({norm(a0) if a0 is not None else None})', G.loc(c), ok,
                   'the function receives the round set itself', 'the function receives something other than the retained round set',
-                  construct=construct_key(r.run.qualname, c.ast, 'argument'))
-    # S7
+                  construct=construct_key('BUFFER.daemon', 'argument of the call'))
+    # S7 / S8 / S9 on the entry points (private helpers inlined)
     adaptors = {'__call__': '_obj_to_aiter', 'await_': '_awaitable_to_aiter', 'map': 'to_async_iter', 'amap': None}
+    s9_seen = False
     for ep in r.entry_points:
-        ge = build(ep, p)
-        puts = [n for n in ge.nodes if n.kind == 'call' and r.put is not None and callee_info(ge, n.ast)['kind'] == 'package'
-                and r.put in callee_info(ge, n.ast).get('scopes', [])]
+        ge = _entry_graph(r, ep)
         argp = ep.params[1] if len(ep.params) > 1 else None
-        ok = len(puts) == 1 and not puts[0].loops
-        w = must_pass(ge, [ge.entry], [ge.exit], puts) if puts else None
+        puts = []
+        for n in ge.nodes:
+            if n.kind == 'call' and len(n.ast.args) >= 2 and isinstance(n.ast.func, ast.Attribute) and n.ast.func.attr.startswith('call_'):
+                cb = resolve(ge, n, n.ast.args[0])
+                if isinstance(cb, ast.Attribute) and cb.attr == 'put_nowait' and ge.res.path(cb.value) == r.Q:
+                    puts.append(n)
+        direct = [n for n in ge.nodes if n.kind == 'call' and isinstance(n.ast.func, ast.Attribute) and n.ast.func.attr in ('put_nowait', 'put')
+                  and rpath(ge, n, n.ast.func.value) == r.Q]
+        payloads = [resolve(ge, n, n.ast.args[1]) for n in puts] + [resolve(ge, n, n.ast.args[0]) for n in direct if n.ast.args]
+        w = must_pass(ge, [ge.entry], [ge.exit], puts + direct) if (puts or direct) else None
+        want = adaptors.get(ep.name)
         shape = False
-        if puts:
-            a = puts[0].ast.args[0] if puts[0].ast.args else None
-            want = adaptors.get(ep.name)
+        if len(payloads) == 1:
+            a = payloads[0]
             if want is None:
                 shape = isinstance(a, ast.Name) and a.id == argp
             else:
                 shape = isinstance(a, ast.Call) and isinstance(a.func, ast.Name) and a.func.id == want and len(a.args) == 1 \
                     and isinstance(a.args[0], ast.Name) and a.args[0].id == argp
-        ctx.check('C03-S7', f'{ep.name}: {norm(puts[0].ast) if puts else "no put"}', f'{FILE}:{ep.lineno}',
-                  ok and w is None and shape, 'exactly one hand-off with the right adaptor',
+        ok = len(puts + direct) == 1 and not (puts + direct)[0].loops and w is None and shape
+        ctx.check('C03-S7', f'{ep.name}: {norm((puts + direct)[0].ast)[:70] if puts + direct else "no hand-off"} <- {norm(payloads[0]) if payloads else None}',
+                  f'{FILE}:{ep.lineno}', ok, 'exactly one hand-off with the right adaptor',
                   'an entry point does not enqueue its argument (exactly once, through its adaptor)', witness=render(ge, w),
                   construct=construct_key(ep.qualname, 'entry point'))
+        # S8: the queue is touched only as the callback of loop.call_soon_threadsafe
+        ts = [n for n in puts if n.ast.func.attr == 'call_soon_threadsafe' and rpath(ge, n, n.ast.func.value) == 'self.loop']
+        bad_touch = list(direct) + [n for n in puts if n not in ts]
+        other = [n for n in ge.nodes if n.kind == 'call' and isinstance(n.ast.func, ast.Attribute) and rpath(ge, n, n.ast.func.value) == r.Q
+                 and n not in direct]
+        ctx.check('C03-S8', f'{ep.name}: queue touched via {[norm(n.ast.func) for n in ts + bad_touch + other]}', f'{FILE}:{ep.lineno}',
+                  bool(ts) and not bad_touch and not other,
+                  'queue touched only by a callback scheduled thread-safely on the owning loop',
+                  'an asyncio.Queue is touched from a thread that may not be the loop\'s: a foreign put_nowait does not wake the loop',
+                  construct=construct_key(ep.qualname, 'queue touched', [norm(n.ast.func) for n in bad_touch + other]))
+        # S9
+        for n in ge.nodes:
+            if n.kind == 'call' and isinstance(n.ast.func, ast.Attribute) and n.ast.func.attr in ('clear', 'set') \
+                    and rpath(ge, n, n.ast.func.value) == r.FLAG:
+                s9_seen = True
+                host = 'BUFFER.put' if n.meta.get('inlined') else ep.qualname
+                ctx.violation('C03-S9', f'{ep.name}: {norm(n.ast)}', ge.loc(n),
+                              'a loop-owned asyncio.Event is mutated on the caller\'s thread: a foreign clear() landing between '
+                              'set() and the round-loop test re-opens the finished round, so arguments already delivered are delivered again',
+                              construct=construct_key(host, f'{r.FLAG}.{n.ast.func.attr}()'))
+    if not s9_seen:
+        ctx.holds('C03-S9', 'entry points never mutate the completion flag directly', f'{FILE}:{r.cls.lineno}')
     for ad in ('_obj_to_aiter', '_awaitable_to_aiter'):
         sc = p.find(FILE, ad)
         if sc is None:
@@ -415,39 +458,10 @@ def c03(ctx: Ctx) -> None:
         ys = [n for n in ga.nodes if n.kind == 'yield']
         w = must_pass(ga, [ga.entry], [ga.exit], ys, edge_ok=_nonexc)
         par = sc.params[0]
-        shape = len(ys) == 1 and (norm(ys[0].ast.value) == par or norm(ys[0].ast.value) == f'await {par}')
+        shape = len(ys) == 1 and norm(resolve(ga, ys[0], ys[0].ast.value)) in (par, f'await {par}')
         ctx.check('C03-S7', f'adaptor {ad}: {norm(ys[0].ast) if ys else None}', f'{FILE}:{sc.lineno}', w is None and shape,
                   'yields its element on every normal path', 'the adaptor can finish without yielding its element', witness=render(ga, w),
                   construct=construct_key(ad, 'adaptor'))
-    # S8 / S9
-    any_scopes = list(r.entry_points) + ([r.put] if r.put else [])
-    for f in any_scopes:
-        gg = build(f, p)
-        for x in own_nodes(f.node):
-            if self_attr(x) == r.q:
-                # allowed only as `self.q.put_nowait` argument of call_soon_threadsafe
-                par = parent(x)
-                gpar = parent(par) if par is not None else None
-                ok = isinstance(par, ast.Attribute) and par.attr == 'put_nowait' and isinstance(gpar, ast.Call) and par in gpar.args \
-                    and isinstance(gpar.func, ast.Attribute) and gpar.func.attr == 'call_soon_threadsafe' and self_attr(gpar.func.value) == 'loop'
-                ctx.check('C03-S8', f'{f.name}: {norm(gpar if ok else par)}', f'{FILE}:{x.lineno}', ok,
-                          'queue touched only by a callback scheduled thread-safely on the owning loop',
-                          'an asyncio.Queue is touched from a thread that may not be the loop\'s: a foreign put_nowait does not wake the loop',
-                          construct=construct_key(f.qualname, 'queue touched', par))
-            if self_attr(x) == r.flag:
-                par = parent(x)
-                if isinstance(par, ast.Attribute) and par.attr in ('clear', 'set'):
-                    call = parent(par)
-                    direct = isinstance(call, ast.Call) and call.func is par
-                    if direct:
-                        ctx.violation('C03-S9', f'{f.name}: {norm(call)}', f'{FILE}:{x.lineno}',
-                                      'a loop-owned asyncio.Event is mutated on the caller\'s thread: a foreign clear() landing between '
-                                      'set() and the round-loop test re-opens the finished round, so arguments already delivered are delivered again',
-                                      construct=construct_key(f.qualname, call))
-                    else:
-                        ctx.holds('C03-S9', f'{f.name}: {norm(parent(par))}', f'{FILE}:{x.lineno}', 'scheduled on the loop')
-    if not any(o.rule == 'C03-S9' for o in ctx.obs):
-        ctx.holds('C03-S9', 'entry points never mutate the completion flag directly', f'{FILE}:{r.cls.lineno}')
     # foreign producer in to_async_iter
     tai = p.find(FILE, 'to_async_iter')
     if tai is not None:
@@ -468,26 +482,24 @@ def c03(ctx: Ctx) -> None:
     # S10
     for s in r.set_:
         w = None
-        for x in [x for x in gr.nodes if x.suspends]:
-            if find_path(gr, [s], [x]) is not None:
-                w = find_path(gr, [s], [x])
-        ctx.check('C03-S10', f'no suspension between {norm(s.ast)} and the end of the runner', gr.loc(s), w is None,
-                  'atomic with the round-loop test', 'the runner can be suspended after setting the flag', witness=render(gr, w),
-                  construct=construct_key(r.run.qualname, 'suspension after set'))
-    for rc in r.run_calls:
-        ne = [e for e in g.succ[rc.id] if e.label != 'exc']
-        w = None
-        for x in [x for x in g.nodes if x.suspends and x is not rc]:
-            p1 = find_path(g, [], [x], avoid=[r.round_branch], start_edges=ne)
+        for x in [x for x in G.nodes if x.suspends]:
+            p1 = find_path(G, [s], [x], avoid=[r.round_branch], edge_ok=_nonexc)
             if p1 is not None:
                 w = p1
-        after = reach(g, [], start_edges=[e for e in g.succ[r.round_branch.id] if e.label == 'true'])
-        uses_after = [n for n in g.nodes if n.id in after and n is not r.round_branch and n.kind not in ('implicit_return', 'return', 'exit')
-                      and n.ast is not None and r.round_loop not in n.loops]
-        ctx.check('C03-S10', f'from {norm(rc.ast)} to the round-loop test: no suspension; nothing after the loop', g.loc(rc),
-                  w is None and not uses_after, 'a finished round cannot be re-opened by a loop-thread submission',
-                  'a submission can slip in between the successful call and the loop test' if w is not None else 'the activation continues after the round loop',
-                  witness=render(g, w), construct=construct_key(r.process.qualname, 'window after run'))
+                break
+        back = find_path(G, [s], [r.round_branch], edge_ok=_nonexc)
+        ctx.check('C03-S10', f'no suspension between {norm(s.ast)} and the round-loop test', G.loc(s), w is None and back is not None,
+                  'a finished round cannot be re-opened by a loop-thread submission',
+                  'a submission can slip in between the successful call and the loop test', witness=render(G, w),
+                  construct=construct_key('BUFFER.daemon', 'window after set'))
+    exit_edges = [e for e in G.succ[r.round_branch.id] if e.label == r.round_exit_label]
+    reached = reach(G, [], avoid=binds, start_edges=exit_edges)
+    uses_after = [n for n in G.nodes if n.id in reached and n.ast is not None and n.kind in ('call', 'await', 'store_name')
+                  and r.round_loop not in n.loops and n not in binds
+                  and any(isinstance(x, ast.Name) and x.id == RS for x in ast.walk(n.ast))]
+    ctx.check('C03-S10', 'after the round loop the activation ends (fresh round set next round)', G.loc(r.round_branch), not uses_after,
+              'nothing is carried over', 'the round set is used after the round ended', witness=[f'{G.loc(n)} {norm(n.ast)}' for n in uses_after],
+              construct=construct_key('BUFFER.daemon', 'use after round'))
     r.publish(ctx)
 
 
@@ -495,13 +507,49 @@ def c03(ctx: Ctx) -> None:
 # C07
 # ---------------------------------------------------------------------------
 
+def _implied_facts(g: CFG, b: Node, truth: bool, r: BufferRoles, cancelp: str) -> Dict[str, bool]:
+    """Facts about (cancel, timer, done) implied by taking the `truth` edge of branch b, whose
+    (resolved) test is a boolean combination of those atoms; evaluated by truth table."""
+    t = resolve(g, b, b.meta['test'])
+
+    def ev(e, env) -> Optional[bool]:
+        if isinstance(e, ast.Name) and e.id == cancelp:
+            return env['cancel']
+        if isinstance(e, ast.Attribute) and g.res.path(e) == r.TIMER:
+            return env['timer']
+        if isinstance(e, ast.Call) and isinstance(e.func, ast.Attribute) and e.func.attr == 'done' and g.res.path(e.func.value) == r.TIMER:
+            return env['done']
+        if isinstance(e, ast.UnaryOp) and isinstance(e.op, ast.Not):
+            v = ev(e.operand, env)
+            return None if v is None else not v
+        if isinstance(e, ast.BoolOp):
+            vals = [ev(v, env) for v in e.values]
+            if any(v is None for v in vals):
+                return None
+            return all(vals) if isinstance(e.op, ast.And) else any(vals)
+        return None
+    sat = []
+    for c_, t_, d_ in itertools.product((True, False), repeat=3):
+        env = {'cancel': c_, 'timer': t_, 'done': d_}
+        v = ev(t, env)
+        if v is None:
+            return {}
+        if v == truth:
+            sat.append(env)
+    out: Dict[str, bool] = {}
+    for k in ('cancel', 'timer', 'done'):
+        vs = {e[k] for e in sat}
+        if len(vs) == 1:
+            out[k] = vs.pop()
+    return out
+
+
 def c07(ctx: Ctx) -> None:
     r = BufferRoles(ctx)
-    p = r.p
-    g, gr = r.gproc, r.grun
+    p, G = r.p, r.G
     ctx.trusted += ['asyncio ready-queue FIFO order', 'Queue.join / task_done semantics', 'asyncio.Event wakes all waiters']
     ctx.rule('C07-W1', 'wait(): awaited queue join, then wait on the completion flag, nothing suspends after it', 1)
-    ctx.rule('C07-W2', 'picked up => flag cleared: between the blocking get and its task_done there is a clear() and no suspension; other get/done pairs are under a cleared flag', 2)
+    ctx.rule('C07-W2', 'picked up => flag cleared: after the blocking get the flag is cleared and the producer marked done before the next suspension point; other get/done pairs are under a cleared flag', 2)
     ctx.rule('C07-W3', 'every successful dequeue is followed by exactly one task_done on every non-exceptional path', 3)
     ctx.rule('C07-W4', 'wait() cancels only the timed read, and only when cancel is true and the read is pending', 1)
     ctx.rule('C07-W5', 'both TimeoutError and CancelledError of the timed read lead to running the function with the round set', 1)
@@ -510,13 +558,18 @@ def c07(ctx: Ctx) -> None:
     ctx.rule('C07-W8', 'hand-off and join both travel the owning loop\'s ready queue', 2)
     ctx.rule('C07-W9', 'the daemon is cancellation-transparent: a handler that may catch CancelledError at a suspension point re-raises', 3)
     ctx.rule('C07-W10', 'DaemonTask subclasses asyncio.Task and overrides nothing that handles cancellation', 1)
-    # W1
     if r.wait is None:
         raise AnalysisError('wait() vanished')
-    gw = build(r.wait, p)
+    gw = build(r.wait, p, inline_methods=True)
+
+    def res_call(n: Node) -> Optional[ast.Call]:
+        v = resolve(gw, n, n.ast.value)
+        return v if isinstance(v, ast.Call) else None
     joins = [n for n in gw.nodes if n.kind == 'await' and any(
-        isinstance(x, ast.Call) and meth_call_ast(x, r.q, 'join') for x in ast.walk(n.ast))]
-    fwaits = [n for n in gw.nodes if n.kind == 'await' and isinstance(n.ast.value, ast.Call) and meth_call_ast(n.ast.value, r.flag, 'wait')]
+        isinstance(x, ast.Call) and isinstance(x.func, ast.Attribute) and x.func.attr == 'join' and gw.res.path(x.func.value) == r.Q
+        for x in ast.walk(resolve(gw, n, n.ast)))]
+    fwaits = [n for n in gw.nodes if n.kind == 'await' and res_call(n) is not None and isinstance(res_call(n).func, ast.Attribute)
+              and res_call(n).func.attr == 'wait' and gw.res.path(res_call(n).func.value) == r.FLAG]
     w1 = must_pass(gw, [gw.entry], [gw.exit], joins, edge_ok=_nonexc)
     w2 = must_pass(gw, [gw.entry], [gw.exit], fwaits, edge_ok=_nonexc)
     w3 = find_path(gw, fwaits, joins) if fwaits and joins else None
@@ -531,41 +584,37 @@ def c07(ctx: Ctx) -> None:
               'wait() can return without the join or without waiting for the flag (or in the wrong order)',
               witness=render(gw, w1 or w2 or w3 or w4 or after), construct=construct_key(r.wait.qualname, 'barrier order'))
     # W2
-    firsts = [bg for bg in r.blocking_get if not (isinstance(parent(parent(bg.ast)), ast.Call)
-                                                  and call_name(g, parent(parent(bg.ast))) == 'asyncio.wait_for')
-              and r.round_loop not in bg.loops]
+    firsts = [bg for bg in r.blocking_get if not r.is_armed_get(bg) and r.round_loop not in bg.loops]
     for bg in firsts:
-        ne = [e for e in g.succ[bg.id] if e.label != 'exc']
-        susp_nodes = [x for x in g.nodes if x.suspends and x is not bg]
-        # the flag is cleared and the producer marked done before the daemon can be suspended again
-        w = must_pass(g, [], susp_nodes + [g.exit], r.clear, start_edges=ne, edge_ok=_nonexc)
-        susp = must_pass(g, [], susp_nodes + [g.exit], r.done, start_edges=ne, edge_ok=_nonexc)
-        ctx.check('C07-W2', f'{norm(bg.ast)}: clear() and task_done() before the next suspension point', g.loc(bg),
+        ne = [e for e in G.succ[bg.id] if e.label != 'exc']
+        susp_nodes = [x for x in G.nodes if x.suspends and x is not bg]
+        w = must_pass(G, [], susp_nodes + [G.exit], r.clear, start_edges=ne, edge_ok=_nonexc)
+        susp = must_pass(G, [], susp_nodes + [G.exit], r.done, start_edges=ne, edge_ok=_nonexc)
+        ctx.check('C07-W2', f'{norm(bg.ast)}: clear() and task_done() before the next suspension point', G.loc(bg),
                   w is None and susp is None and bool(r.clear),
                   'a waiter released by join() can only see a cleared flag',
                   'a waiter released by join() can see the stale set flag of the previous round and return before delivery',
-                  witness=render(g, w or susp), construct=construct_key(r.process.qualname, 'stale flag window'))
-    inner_done = [d for d in r.done if r.round_loop in d.loops]
-    for d in inner_done:
-        ctx.holds('C07-W2', f'{norm(d.ast)} inside the round loop (entered only while the flag is cleared)', g.loc(d))
+                  witness=render(G, w or susp), construct=construct_key('BUFFER.daemon', 'stale flag window'))
+    if not firsts:
+        ctx.violation('C07-W2', 'no blocking get outside the round loop', f'{FILE}:{r.root.lineno}', 'the daemon never blocks for a first producer',
+                      construct=construct_key('BUFFER.daemon', 'no first get'))
+    for d in [d for d in r.done if r.round_loop in d.loops]:
+        ctx.holds('C07-W2', f'{norm(d.ast)} inside the round loop (entered only while the flag is cleared)', G.loc(d))
     if r.drain is not None:
-        gd = build(r.drain, p)
-        dcalls = [n for n in g.nodes if n.kind == 'call' and callee_info(g, n.ast)['kind'] == 'package'
-                  and r.drain in callee_info(g, n.ast).get('scopes', [])]
-        okd = all(r.round_loop in n.loops for n in dcalls)
-        ctx.check('C07-W2', 'the drain generator runs only inside the round loop', f'{FILE}:{r.drain.lineno}', okd and bool(dcalls),
+        okd = all(r.round_loop in n.loops for n in r.drain_calls)
+        ctx.check('C07-W2', 'the drain generator runs only inside the round loop', f'{FILE}:{r.drain.lineno}', okd and bool(r.drain_calls),
                   'its task_done calls happen under a cleared flag', 'producers are drained outside the round loop',
-                  construct=construct_key(r.process.qualname, 'drain outside round'))
-    # no SET inside the round loop other than through RUN followed by the loop test
+                  construct=construct_key('BUFFER.daemon', 'drain outside round'))
     # W3
-    def pair_rule(gg: CFG, gets: List[Node], dones: List[Node], label: str) -> None:
+    def pair_rule(gg: CFG, gets: List[Node], dones: List[Node], label: str, key: str) -> None:
         for ge in gets:
             ne = [e for e in gg.succ[ge.id] if e.label != 'exc']
             others = [x for x in gets if x is not ge]
             w = must_pass(gg, [], others + [gg.exit] + [ge], dones, start_edges=ne, edge_ok=_nonexc)
+            kind = 'timed' if ge in r.timed_get else 'get'
             ctx.check('C07-W3', f'{label}: {norm(ge.ast)[:60]} -> task_done', gg.loc(ge), w is None and bool(dones),
                       'one task_done per dequeued producer', 'a dequeued producer is never marked done: wait() hangs in join()',
-                      witness=render(gg, w), construct=construct_key(gg.scope.qualname, 'get without task_done', ge.ast))
+                      witness=render(gg, w), construct=construct_key(key, 'get without task_done', kind))
         got = lambda e: not (e.src in gets and e.label != 'exc')   # forbid "a get succeeded" edges
         for d in dones:
             starts = [e for x in dones for e in gg.succ[x.id] if e.label != 'exc']
@@ -573,119 +622,127 @@ def c07(ctx: Ctx) -> None:
             w0 = find_path(gg, [gg.entry], [d], edge_ok=got)
             ctx.check('C07-W3', f'{label}: no second/unpaired {norm(d.ast)}', gg.loc(d), w is None and w0 is None,
                       'task_done only after a dequeue', 'an extra task_done releases join() before its producer was picked up',
-                      witness=render(gg, w or w0), construct=construct_key(gg.scope.qualname, 'extra task_done', d.ast))
-    real_gets = [bg for bg in r.blocking_get if not (isinstance(parent(parent(bg.ast)), ast.Call)
-                                                     and call_name(g, parent(parent(bg.ast))) == 'asyncio.wait_for')] + r.timed_get
-    pair_rule(g, real_gets, r.done, r.process.name)
+                      witness=render(gg, w or w0), construct=construct_key(key, 'extra task_done'))
+    real_gets = [bg for bg in r.blocking_get if not r.is_armed_get(bg)] + r.timed_get
+    pair_rule(G, real_gets, r.done, 'daemon', 'BUFFER.daemon')
     if r.drain is not None:
         gd = build(r.drain, p)
-        dg = [n for n in gd.nodes if meth_call(n, r.q, 'get_nowait')]
-        dd = [n for n in gd.nodes if meth_call(n, r.q, 'task_done')]
-        pair_rule(gd, dg, dd, r.drain.name)
+        dg = [n for n in gd.nodes if is_meth(gd, n, r.Q, 'get_nowait')]
+        dd = [n for n in gd.nodes if is_meth(gd, n, r.Q, 'task_done')]
+        pair_rule(gd, dg, dd, r.drain.name, 'BUFFER.drain')
+    daemon_scopes = {r.root.qualname} | {n.meta['name'] for n in G.nodes if n.kind == 'inline_enter'}
     for f in r.methods.values():
-        if f in (r.process, r.drain):
+        if f.qualname in daemon_scopes or f is r.drain:
             continue
         gg = build(f, p)
         for n in gg.nodes:
-            if meth_call(n, r.q, 'task_done'):
+            if is_meth(gg, n, r.Q, 'task_done'):
                 ctx.violation('C07-W3', f'{norm(n.ast)} in {f.name}', gg.loc(n), 'task_done outside the dequeuing code',
                               construct=construct_key(f.qualname, n.ast))
     # W4
     cancels = [n for n in gw.nodes if n.kind == 'call' and isinstance(n.ast.func, ast.Attribute) and n.ast.func.attr == 'cancel']
-    cb = [n for n in gw.nodes if n.kind == 'branch' and isinstance(n.meta['test'], ast.Name) and n.meta['test'].id == 'cancel']
+    cancelp = 'cancel'
     for c in cancels:
-        target_ok = self_attr(c.ast.func.value) == r.timer
-        w = find_path(gw, [gw.entry], [c], edge_ok=lambda e: not (e.src in cb and e.label == 'true'))
-        done_b = [n for n in gw.nodes if n.kind == 'branch' and isinstance(n.meta['test'], ast.Call) and isinstance(n.meta['test'].func, ast.Attribute)
-                  and n.meta['test'].func.attr == 'done' and self_attr(n.meta['test'].func.value) == r.timer]
-        w2 = find_path(gw, [gw.entry], [c], edge_ok=lambda e: not (e.src in done_b and e.label == 'false')) if done_b else []
-        ctx.check('C07-W4', f'{norm(c.ast)}', gw.loc(c), target_ok and w is None and w2 is None,
+        target_ok = rpath(gw, c, c.ast.func.value) == r.TIMER
+        bad = None
+        for pth in enum_paths(gw, [c], sources=[gw.entry], edge_ok=_nonexc):
+            facts: Dict[str, bool] = {}
+            for e in pth:
+                if e.src.kind == 'branch' and e.label in ('true', 'false'):
+                    facts.update(_implied_facts(gw, e.src, e.label == 'true', r, cancelp))
+            if not (facts.get('cancel') is True and facts.get('done') is False):
+                bad = pth
+                break
+        ctx.check('C07-W4', f'{norm(c.ast)}', gw.loc(c), target_ok and bad is None,
                   'cancels the pending timed read only when asked to', 'wait() cancels something else, or also with cancel=False / a finished read',
-                  witness=render(gw, w or (w2 or None)), construct=construct_key(r.wait.qualname, c.ast))
+                  witness=render(gw, bad), construct=construct_key(r.wait.qualname, 'cancel target/guard'))
     if not cancels:
         ctx.violation('C07-W4', 'wait(cancel=True) never cancels the timed read', f'{FILE}:{r.wait.lineno}',
                       'a flush has to sit out the whole quiet period', construct=construct_key(r.wait.qualname, 'no cancel'))
     # W5
     for tg in r.timed_get:
         for cls_ in ('TimeoutError', 'CancelledError'):
-            ee = [e for e in g.succ[tg.id] if e.label == 'exc' and e.classes and cls_ in e.classes and e.dst.kind == 'except']
-            w = must_pass(g, [], [g.exit, g.raise_exit, r.round_head], r.run_calls, start_edges=ee) if ee else None
-            okarg = all(rc.ast.value.args and isinstance(rc.ast.value.args[0], ast.Name) and rc.ast.value.args[0].id == r.roundset
-                        for rc in r.run_calls)
-            ctx.check('C07-W5', f'{cls_} edge of {norm(tg.ast)} -> run the function', g.loc(tg), bool(ee) and w is None and okarg,
+            ee = [e for e in G.succ[tg.id] if e.label == 'exc' and e.classes and cls_ in e.classes and e.dst.kind == 'except']
+            guards = _empty_guards(r)
+            w = must_pass(G, [], [G.exit, G.raise_exit, r.round_head], r.callfunc + r.callfunc_calls, start_edges=ee,
+                          edge_ok=lambda e: not (e.src in guards and e.label == 'false')) if ee else None
+            ctx.check('C07-W5', f'{cls_} edge of {norm(tg.ast)} -> run the function', G.loc(tg), bool(ee) and w is None and bool(r.callfunc),
                       'flush', f'{cls_} of the timed read does not lead to a flush' + (' (wait(cancel=True) would not return early)' if cls_ == 'CancelledError' else ''),
-                      witness=render(g, w), construct=construct_key(r.process.qualname, 'no flush on', cls_))
+                      witness=render(G, w), construct=construct_key('BUFFER.daemon', 'no flush on', cls_))
     # W6
-    clears_in_wait = [n for n in gw.nodes if meth_call(n, r.flag, 'clear') or meth_call(n, r.flag, 'set')]
-    ctx.check('C07-W6', f'self.{r.flag} is {r.kinds[r.flag][0]}; wait() mutates it {len(clears_in_wait)} time(s)', f'{FILE}:{r.wait.lineno}',
-              r.kinds[r.flag][0] == 'asyncio.Event' and not clears_in_wait, 'broadcast to all concurrent waiters',
+    mut_in_wait = [n for n in gw.nodes if is_meth(gw, n, r.FLAG, 'clear') or is_meth(gw, n, r.FLAG, 'set')]
+    ctx.check('C07-W6', f'self.{r.flag} is {r.kinds[r.flag][0]}; wait() mutates it {len(mut_in_wait)} time(s)', f'{FILE}:{r.wait.lineno}',
+              r.kinds[r.flag][0] == 'asyncio.Event' and not mut_in_wait, 'broadcast to all concurrent waiters',
               'a waiter consumes/clears the flag: other concurrent waiters hang', construct=construct_key(r.wait.qualname, 'flag mutated in wait'))
     # W7
     if r.wait_anywhere is not None:
         ga = build(r.wait_anywhere, p)
         rets = [n for n in ga.nodes if n.kind == 'return']
-        ok = False
+        ok = bool(rets)
         for rn in rets:
-            v = rn.ast.value
+            v = resolve(ga, rn, rn.ast.value)
             if isinstance(v, ast.Await):
                 v = v.value
+            good = False
             if isinstance(v, ast.Call) and isinstance(v.func, ast.Name) and v.func.id == 'ensure_aw' and len(v.args) == 2:
                 a0, a1 = v.args
-                ok = isinstance(a0, ast.Call) and self_attr(a0.func) == 'wait' and self_attr(a1) == 'loop' and \
+                good = isinstance(a0, ast.Call) and self_attr(a0.func) == 'wait' and self_attr(a1) == 'loop' and \
                     any(k.arg == 'cancel' and isinstance(k.value, ast.Name) and k.value.id == 'cancel' for k in a0.keywords)
-        ctx.check('C07-W7', f'wait_from_anywhere: {norm(rets[0].ast) if rets else None}', f'{FILE}:{r.wait_anywhere.lineno}', ok,
+            ok = ok and good
+        ctx.check('C07-W7', f'wait_from_anywhere: {[norm(x.ast) for x in rets]}', f'{FILE}:{r.wait_anywhere.lineno}', ok,
                   'same cancel flag, the stored loop', 'foreign waiters do not run wait() on the owning loop with their cancel flag',
                   construct=construct_key(r.wait_anywhere.qualname, 'delegation'))
     # W8
-    if r.put is not None:
-        gp = build(r.put, p)
-        hand = [n for n in gp.nodes if n.kind == 'call' and isinstance(n.ast.func, ast.Attribute) and n.ast.func.attr == 'call_soon_threadsafe'
-                and self_attr(n.ast.func.value) == 'loop']
-        other = [n for n in gp.nodes if n.kind == 'call' and isinstance(n.ast.func, ast.Attribute) and n.ast.func.attr in ('call_later', 'call_at', 'run_in_executor', 'call_soon')]
-        ctx.check('C07-W8', f'hand-off: {[norm(h.ast) for h in hand]}', f'{FILE}:{r.put.lineno}', len(hand) == 1 and not other,
+    ep = r.methods.get('__call__')
+    if ep is not None:
+        ge = _entry_graph(r, ep)
+        hand = [n for n in ge.nodes if n.kind == 'call' and isinstance(n.ast.func, ast.Attribute) and n.ast.func.attr == 'call_soon_threadsafe'
+                and rpath(ge, n, n.ast.func.value) == 'self.loop']
+        other = [n for n in ge.nodes if n.kind == 'call' and isinstance(n.ast.func, ast.Attribute) and n.ast.func.attr in ('call_later', 'call_at', 'run_in_executor', 'call_soon')]
+        ctx.check('C07-W8', f'hand-off: {[norm(h.ast) for h in hand]}', f'{FILE}:{ep.lineno}', len(hand) == 1 and not other,
                   'enters the owning loop\'s ready queue', 'the hand-off takes a detour (timer/executor/non-thread-safe call): a later join can overtake it',
-                  construct=construct_key(r.put.qualname, 'hand-off'))
+                  construct=construct_key('BUFFER.put', 'hand-off'))
     jn = joins[0] if joins else None
     if jn is not None:
-        v = jn.ast.value
-        ok = (isinstance(v, ast.Call) and isinstance(v.func, ast.Attribute) and v.func.attr == 'create_task' and self_attr(v.func.value) == 'loop') \
+        v = resolve(gw, jn, jn.ast.value)
+        ok = (isinstance(v, ast.Call) and isinstance(v.func, ast.Attribute) and v.func.attr == 'create_task' and gw.res.path(v.func.value) == 'self.loop') \
             or (isinstance(v, ast.Call) and call_name(gw, v) in ('asyncio.create_task', 'asyncio.ensure_future'))
         ctx.check('C07-W8', f'join: {norm(jn.ast)}', gw.loc(jn), ok,
                   'the join starts as a task, i.e. behind the already scheduled put callbacks in the ready queue',
                   'join() awaited inline runs before a put that is still pending in the ready queue (call_soon_threadsafe): '
                   'it sees no unfinished task for a just-submitted argument and wait() returns too early',
                   construct=construct_key(r.wait.qualname, 'join placement'))
-    init_loop = r.kinds.get(r.daemon_attr)
-    # W9
-    for f in r.daemon_scopes():
-        gg = build(f, p)
-        offenders_before = len([o for o in ctx.obs if o.rule == 'C07-W9'])
-        hs = [n for n in gg.nodes if n.kind == 'except']
-        if not any(({'CancelledError', 'BaseException'} & set(h.meta.get('caught', set()))) and
-                   any(e.label == 'exc' and e.src.suspends for e in gg.pred[h.id]) for h in hs):
-            ctx.holds('C07-W9', f'{f.qualname}: no handler catches a cancellation delivered at a suspension point',
-                      f'{FILE}:{f.lineno}', examined=len(hs) + 1)
-        for h in hs:
-            caught = h.meta.get('caught', set())
-            if not ({'CancelledError', 'BaseException'} & set(caught)):
+    # W9: every handler of the daemon graph (own + inlined) and of the loader, once per handler
+    seen_handlers: Set[int] = set()
+    roles_with_offender: Set[str] = set()
+    for gg in (G, r.gload):
+        for h in [n for n in gg.nodes if n.kind == 'except']:
+            if id(h.ast) in seen_handlers:
                 continue
-            # which suspension points feed a CancelledError into this handler?
+            caught = h.meta.get('caught', set())
+            if not ({'CancelledError', 'BaseException', 'NonException'} & set(caught)):
+                continue
             feeders = [e.src for e in gg.pred[h.id] if e.label == 'exc' and e.src.suspends and e.classes
-                       and ({'CancelledError', 'BaseException'} & set(e.classes))]
+                       and ({'CancelledError', 'BaseException', 'NonException'} & set(e.classes))]
             if not feeders:
                 continue
-            # every path from the handler must leave by raising CancelledError/BaseException
+            seen_handlers.add(id(h.ast))
+
             def guard_edge(e: Edge) -> bool:
                 t = e.src.meta.get('test') if e.src.kind == 'branch' else None
                 return t is not None and any(isinstance(x, ast.Attribute) and x.attr == 'cancelling' for x in ast.walk(t))
-            targets = [gg.exit] + [n for n in gg.nodes if n.kind == 'loop_head'] + \
-                      [n for n in gg.nodes if n.kind in ('implicit_return',)]
+            targets = [gg.exit] + [n for n in gg.nodes if n.kind in ('loop_head', 'implicit_return', 'inline_exit')]
             w = find_path(gg, [h], targets, edge_ok=lambda e: not guard_edge(e))
-            inst = f'{f.qualname}: except {norm(h.ast.type) if h.ast.type else "(bare)"} around {sorted({norm(x.ast)[:40] for x in feeders})}'
-            ctx.check('C07-W9', inst, gg.loc(h), w is None,
-                      're-raises the cancellation',
+            host = h.meta.get('inlined_from') or gg.scope.qualname
+            role = r.role_of(host)
+            roles_with_offender.add(role)
+            inst = f'{role} ({host}): except {norm(h.ast.type) if h.ast.type else "(bare)"} around {sorted({norm(x.ast)[:40] for x in feeders})}'
+            ctx.check('C07-W9', inst, gg.loc(h), w is None, 're-raises the cancellation',
                       'a CancelledError aimed at the daemon is swallowed here: the `while True` daemon goes on and loop shutdown never finishes',
-                      witness=render(gg, w), construct=construct_key(f.qualname, 'swallows cancel', h.ast.type or 'bare'))
+                      witness=render(gg, w), construct=construct_key('BUFFER.' + role, 'swallows cancel', h.ast.type or 'bare'))
+    for role in ('ROOT', 'PROCESS', 'RUNNER', 'LOADER'):
+        if role not in roles_with_offender:
+            ctx.holds('C07-W9', f'{role}: no handler catches a cancellation delivered at a suspension point', f'{FILE}:{r.root.lineno}')
     # W10
     dt = r.u.scopes.get('DaemonTask')
     if dt is None:
@@ -709,100 +766,98 @@ def c07(ctx: Ctx) -> None:
 # C08
 # ---------------------------------------------------------------------------
 
+def _ancestors_until(x: ast.AST, stop: ast.AST):
+    a = parent(x)
+    while a is not None and a is not stop:
+        yield a
+        a = parent(a)
+
+
 def c08(ctx: Ctx) -> None:
     r = BufferRoles(ctx)
-    p = r.p
-    g, gr = r.gproc, r.grun
+    p, G = r.p, r.G
     ctx.trusted += ['asyncio.wait_for timer', 'a single asyncio task runs one coroutine step at a time']
     ctx.rule('C08-D1', 'one awaited call site of the wrapped function, reached from the daemon root by awaited calls only; the root is spawned once', 2)
     ctx.rule('C08-D2', 'the call is control-dependent on the truthiness of the set it passes', 1)
     ctx.rule('C08-D3', 'the function runs only after a freshly armed quiet timer expired (or was cancelled), once per expiry; the timer wraps queue.get() in wait_for(_, self.timeout)', 4)
     ctx.rule('C08-D4', 'drain precedes arming, everything drained is gathered before the timer is awaited, a successful timed get returns to the loop head', 3)
-    # D1
-    sites = []
+    where = f'{FILE}:{r.root.lineno}'
+    # D1: distinct call sites (by AST identity) of self.func anywhere in the class
+    sites = {}
     for f in p.all_functions():
-        gg = build(f, p)
-        for n in gg.nodes:
-            if n.kind == 'call' and self_attr(n.ast.func) == 'func' and (f.enclosing_class() is r.cls or (
-                    f.enclosing_function() is not None and f.enclosing_function().enclosing_class() is r.cls)):
-                sites.append((gg, n))
-    awaited = [(gg, n) for gg, n in sites if isinstance(parent(n.ast), ast.Await)]
-    dscopes = r.daemon_scopes()
-    ok = len(sites) == 1 and len(awaited) == 1 and sites[0][0].scope in dscopes
-    ctx.check('C08-D1', f'call sites of self.func: {[(gg.scope.qualname, norm(parent(n.ast))) for gg, n in sites]}', f'{FILE}:{r.run.lineno}', ok,
+        top = f
+        while top.enclosing_function() is not None:
+            top = top.enclosing_function()
+        if top.enclosing_class() is not r.cls:
+            continue
+        for x in own_nodes(f.node):
+            if isinstance(x, ast.Call) and self_attr(x.func) == 'func':
+                sites[id(x)] = (f, x)
+    in_daemon = {id(n.ast) for n in r.callfunc_calls}
+    awaited = [x for _, x in sites.values() if isinstance(parent(x), ast.Await)]
+    ok = len(sites) == 1 and len(awaited) == 1 and set(sites) <= in_daemon
+    ctx.check('C08-D1', f'call sites of self.func: {[(f.qualname, norm(parent(x))) for f, x in sites.values()]}', where, ok,
               'single, awaited inline, inside the daemon', 'the wrapped function can be started a second time / as a separate task: overlapping calls',
               construct=construct_key(r.cls.qualname, 'call sites', len(sites), len(awaited)))
-    spawns = []
+    # the daemon coroutines are started without await exactly once: the root, by the constructor, outside any loop
+    inl = {n.meta['name'] for n in G.nodes if n.kind == 'inline_enter'} | {r.root.qualname}
+    starts = []
     for f in p.all_functions():
-        gg = build(f, p)
-        for n in gg.nodes:
-            if n.kind == 'call':
-                info = n.meta.get('callee') or callee_info(gg, n.ast)
-                if info['kind'] == 'package' and any(s in dscopes for s in info.get('scopes', [])):
-                    awaited_ = isinstance(parent(n.ast), ast.Await)
-                    if not awaited_:
-                        spawns.append((gg, n))
-    # un-awaited daemon coroutine objects: allowed: the root in __init__ (once) and loader coroutines collected for gather
-    bad = [(gg, n) for gg, n in spawns if not (gg.scope is r.init and not n.loops) and
-           not (callee_info(gg, n.ast).get('scopes', [None])[0] is r.load)]
-    root_spawns = [(gg, n) for gg, n in spawns if gg.scope is r.init]
-    ctx.check('C08-D1', f'daemon coroutines started without await: root {len(root_spawns)}x in __init__, others {[(gg.scope.qualname, norm(n.ast)) for gg, n in bad]}',
-              f'{FILE}:{r.init.lineno}', len(root_spawns) == 1 and not bad, 'one daemon', 'a second processing task can run the function concurrently',
-              construct=construct_key(r.cls.qualname, 'daemon spawns', len(root_spawns), len(bad)))
+        top = f
+        while top.enclosing_function() is not None:
+            top = top.enclosing_function()
+        if top.enclosing_class() is not r.cls:
+            continue
+        for x in own_nodes(f.node):
+            if isinstance(x, ast.Call) and self_attr(x.func) is not None:
+                m = r.methods.get(self_attr(x.func))
+                if m is not None and m.qualname in inl and m.is_async and not isinstance(parent(x), ast.Await):
+                    starts.append((f, x))
+    root_starts = [(f, x) for f, x in starts if f is r.init]
+    others = [(f, x) for f, x in starts if f is not r.init]
+    in_loop = [x for f, x in root_starts if any(isinstance(a, (ast.For, ast.While)) for a in _ancestors_until(x, r.init.node))]
+    ctx.check('C08-D1', f'daemon coroutines started without await: {len(root_starts)}x in __init__, elsewhere {[(f.qualname, norm(x)) for f, x in others]}',
+              f'{FILE}:{r.init.lineno}', len(root_starts) == 1 and not others and not in_loop, 'one daemon',
+              'a second processing task can run the function concurrently',
+              construct=construct_key(r.cls.qualname, 'daemon spawns', len(root_starts), len(others)))
     # D2
+    guards = _empty_guards(r)
     for c in r.callfunc:
+        w = find_path(G, [G.entry], [c], edge_ok=lambda e: not (e.src in guards and e.label == 'true'))
         a0 = c.ast.value.args[0] if c.ast.value.args else None
-        br = [n for n in gr.nodes if n.kind == 'branch' and isinstance(n.meta['test'], ast.Name) and isinstance(a0, ast.Name)
-              and n.meta['test'].id == a0.id]
-        w = find_path(gr, [gr.entry], [c], edge_ok=lambda e: not (e.src in br and e.label == 'true'))
-        ctx.check('C08-D2', f'{norm(c.ast)} only if {norm(a0) if a0 is not None else None}', gr.loc(c), bool(br) and w is None,
-                  'never called with an empty set', 'the function can be called with an empty set', witness=render(gr, w),
-                  construct=construct_key(r.run.qualname, 'empty call'))
+        ctx.check('C08-D2', f'{norm(c.ast)} only if {norm(a0) if a0 is not None else None}', G.loc(c), bool(guards) and w is None,
+                  'never called with an empty set', 'the function can be called with an empty set', witness=render(G, w),
+                  construct=construct_key('BUFFER.daemon', 'empty call'))
     # D3
     if r.timer is None or not r.arm:
-        ctx.violation('C08-D3', 'no quiet timer', f'{FILE}:{r.process.lineno}', 'the function is not triggered by a quiet period',
-                      construct=construct_key(r.process.qualname, 'no timer'))
+        ctx.violation('C08-D3', 'no quiet timer', where, 'the function is not triggered by a quiet period',
+                      construct=construct_key('BUFFER.daemon', 'no timer'))
         r.publish(ctx)
         return
-    gets = [bg for bg in r.blocking_get if not (isinstance(parent(parent(bg.ast)), ast.Call)
-                                                and call_name(g, parent(parent(bg.ast))) == 'asyncio.wait_for')] + r.timed_get
+    gets = [bg for bg in r.blocking_get if not r.is_armed_get(bg)] + r.timed_get
     for ge in gets:
-        ne = [e for e in g.succ[ge.id] if e.label != 'exc']
-        w = must_pass(g, [], r.run_calls, r.arm, start_edges=ne)
-        ctx.check('C08-D3', f'after {norm(ge.ast)[:50]} a fresh timer is armed before the function can run', g.loc(ge), w is None,
-                  're-armed per arrival', 'the function can run right after an arrival without a new quiet period', witness=render(g, w),
-                  construct=construct_key(r.process.qualname, 'run without fresh timer', ge.ast))
-    for rc in r.run_calls:
-        # reachable only through the Timeout/Cancelled edges of `await TIMER`
-        trig = {id(e) for tg in r.timed_get for e in g.succ[tg.id] if e.label == 'exc' and e.classes
-                and ({'TimeoutError', 'CancelledError'} & set(e.classes))}
-        w = find_path(g, [g.entry], [rc], edge_ok=lambda e: id(e) not in trig)
-        ctx.check('C08-D3', f'{norm(rc.ast)} is reached only through the expiry/cancel edge of the timed read', g.loc(rc), w is None and bool(trig),
-                  'the timer is the sole trigger', 'the function is triggered by something other than the quiet timer', witness=render(g, w),
-                  construct=construct_key(r.process.qualname, 'other trigger'))
+        ne = [e for e in G.succ[ge.id] if e.label != 'exc']
+        w = must_pass(G, [], r.callfunc, r.arm, start_edges=ne)
+        ctx.check('C08-D3', f'after {norm(ge.ast)[:50]} a fresh timer is armed before the function can run', G.loc(ge), w is None,
+                  're-armed per arrival', 'the function can run right after an arrival without a new quiet period', witness=render(G, w),
+                  construct=construct_key('BUFFER.daemon', 'run without fresh timer', 'timed' if ge in r.timed_get else 'blocking'))
+    trig = {id(e) for tg in r.timed_get for e in G.succ[tg.id] if e.label == 'exc' and e.classes
+            and ({'TimeoutError', 'CancelledError'} & set(e.classes))}
     for c in r.callfunc:
-        w = find_path(gr, [], [c], start_edges=list(gr.succ[c.id]))
-        ctx.check('C08-D3', f'{norm(c.ast)} runs at most once per expiry of the quiet timer', gr.loc(c), w is None,
-                  'a retry goes back through drain + fresh timer', 'the function is re-run inside the runner without a new quiet period: '
-                  'arguments arriving in between are neither merged nor restart the timer', witness=render(gr, w),
-                  construct=construct_key(r.run.qualname, 'call in a loop'))
-    # the timer wraps Q.get() in wait_for(_, self.timeout)
+        w = find_path(G, [G.entry], [c], edge_ok=lambda e: id(e) not in trig)
+        ctx.check('C08-D3', f'{norm(c.ast)} is reached only through the expiry/cancel edge of the timed read', G.loc(c), w is None and bool(trig),
+                  'the timer is the sole trigger', 'the function is triggered by something other than the quiet timer', witness=render(G, w),
+                  construct=construct_key('BUFFER.daemon', 'other trigger'))
+        w = find_path(G, [], [c], start_edges=list(G.succ[c.id]), edge_ok=lambda e: id(e) not in trig)
+        ctx.check('C08-D3', f'{norm(c.ast)} runs at most once per expiry of the quiet timer', G.loc(c), w is None,
+                  'a retry goes back through drain + fresh timer', 'the function is re-run without a new quiet period: '
+                  'arguments arriving in between are neither merged nor restart the timer', witness=render(G, w),
+                  construct=construct_key('BUFFER.daemon', 'call in a loop'))
     arm = r.arm[0]
-    v = arm.meta['value']
-    wf = None
-    inner_ok = False
-    if r.arm_helper is not None:
-        for x in own_nodes(r.arm_helper.node):
-            if isinstance(x, ast.Call) and Resolver(r.arm_helper).path(x.func) == 'asyncio.wait_for':
-                wf = x
-        hp = r.arm_helper.params[1] if len(r.arm_helper.params) > 1 else None
-        inner_ok = wf is not None and wf.args and isinstance(wf.args[0], ast.Name) and wf.args[0].id == hp and \
-            v.args and isinstance(v.args[0], ast.Call) and meth_call_ast(v.args[0], r.q, 'get')
-    else:
-        for x in ast.walk(v):
-            if isinstance(x, ast.Call) and g.res.path(x.func) == 'asyncio.wait_for':
-                wf = x
-        inner_ok = wf is not None and wf.args and isinstance(wf.args[0], ast.Call) and meth_call_ast(wf.args[0], r.q, 'get')
+    v = resolve(G, arm, arm.meta['value'])
+    wf = next((x for x in ast.walk(v) if isinstance(x, ast.Call) and G.res.path(x.func) == 'asyncio.wait_for'), None)
+    inner_ok = wf is not None and wf.args and isinstance(wf.args[0], ast.Call) and isinstance(wf.args[0].func, ast.Attribute) \
+        and wf.args[0].func.attr == 'get' and G.res.path(wf.args[0].func.value) == r.Q
     t = None
     if wf is not None:
         t = wf.args[1] if len(wf.args) > 1 else next((k.value for k in wf.keywords if k.arg == 'timeout'), None)
@@ -810,32 +865,32 @@ def c08(ctx: Ctx) -> None:
     for n in own_nodes(r.init.node):
         if isinstance(n, ast.Assign) and self_attr(n.targets[0]) == 'timeout':
             tv = n.value
-    ok = inner_ok and self_attr(t) == 'timeout' and isinstance(tv, ast.Name) and tv.id == 'timeout'
-    ctx.check('C08-D3', f'timer = wait_for(queue.get(), {norm(t) if t is not None else None}); self.timeout = {norm(tv) if tv is not None else None}',
-              g.loc(arm), bool(ok), 'the configured quiet period bounds a read of the queue', 'the quiet timer is not wait_for(queue.get(), self.timeout)',
-              construct=construct_key(r.process.qualname, 'timer shape'))
+    twrites = [x for f in r.methods.values() for x in own_nodes(f.node) if isinstance(x, (ast.Assign, ast.AugAssign))
+               and any(self_attr(tt) == 'timeout' for tt in (x.targets if isinstance(x, ast.Assign) else [x.target]))]
+    ok = inner_ok and self_attr(t) == 'timeout' and isinstance(tv, ast.Name) and tv.id == 'timeout' and len(twrites) == 1
+    ctx.check('C08-D3', f'timer = {norm(v)[:90]}; self.timeout = {norm(tv) if tv is not None else None}',
+              G.loc(arm), bool(ok), 'the configured quiet period bounds a read of the queue', 'the quiet timer is not wait_for(queue.get(), self.timeout)',
+              construct=construct_key('BUFFER.daemon', 'timer shape'))
     # D4
-    drains = [n for n in g.nodes if n.kind == 'call' and r.drain is not None and callee_info(g, n.ast)['kind'] == 'package'
-              and r.drain in callee_info(g, n.ast).get('scopes', [])]
     for a in r.arm:
-        w = must_pass(g, [r.round_head], [a], drains)
-        ctx.check('C08-D4', 'on every iteration the drain precedes arming the timer', g.loc(a), w is None and bool(drains),
+        w = must_pass(G, [r.round_head], [a], r.drain_calls)
+        ctx.check('C08-D4', 'on every iteration the drain precedes arming the timer', G.loc(a), w is None and bool(r.drain_calls),
                   'everything already queued joins the same round', 'the timer can be armed without draining what is already queued',
-                  witness=render(g, w), construct=construct_key(r.process.qualname, 'arm before drain'))
+                  witness=render(G, w), construct=construct_key('BUFFER.daemon', 'arm before drain'))
     for tg in r.timed_get:
-        ne = [e for e in g.succ[tg.id] if e.label != 'exc']
-        w = find_path(g, [], r.run_calls, avoid=[r.round_head], start_edges=ne)
-        ctx.check('C08-D4', 'a successful timed get returns to the loop head (re-drain, re-arm), not to the function', g.loc(tg), w is None,
-                  'a burst is one call', 'an arrival during the quiet period triggers the function', witness=render(g, w),
-                  construct=construct_key(r.process.qualname, 'arrival triggers run'))
-    gath = [n for n in g.nodes if n.kind == 'await' and isinstance(n.ast.value, ast.Call) and call_name(g, n.ast.value) == 'asyncio.gather']
-    for d in drains:
-        ne = [e for e in g.succ[d.id] if e.label != 'exc']
+        ne = [e for e in G.succ[tg.id] if e.label != 'exc']
+        w = find_path(G, [], r.callfunc, avoid=[r.round_head], start_edges=ne)
+        ctx.check('C08-D4', 'a successful timed get returns to the loop head (re-drain, re-arm), not to the function', G.loc(tg), w is None,
+                  'a burst is one call', 'an arrival during the quiet period triggers the function', witness=render(G, w),
+                  construct=construct_key('BUFFER.daemon', 'arrival triggers run'))
+    for d in r.drain_calls:
+        ne = [e for e in G.succ[d.id] if e.label != 'exc']
+
         def empty_false(e: Edge) -> bool:
             return e.src.kind == 'branch' and isinstance(e.src.meta['test'], ast.Name) and e.label == 'false'
-        w = must_pass(g, [], r.timed_get, gath, start_edges=ne, edge_ok=lambda e: _nonexc(e) and not empty_false(e))
-        ctx.check('C08-D4', 'everything drained is gathered before the timed read is awaited', g.loc(d), w is None and bool(gath),
+        w = must_pass(G, [], r.timed_get, r.gathers, start_edges=ne, edge_ok=lambda e: _nonexc(e) and not empty_false(e))
+        ctx.check('C08-D4', 'everything drained is gathered before the timed read is awaited', G.loc(d), w is None and bool(r.gathers),
                   'immediately available arguments are loaded before the quiet period can expire',
-                  'the timer can be awaited with drained producers still unloaded', witness=render(g, w),
-                  construct=construct_key(r.process.qualname, 'await timer before gather'))
+                  'the timer can be awaited with drained producers still unloaded', witness=render(G, w),
+                  construct=construct_key('BUFFER.daemon', 'await timer before gather'))
     r.publish(ctx)
